@@ -297,16 +297,44 @@ package dvid
 // the floor blocks of the run's row.
 // appendBlockRLE stores into the map and into slices the map owns (created by earlier calls on the same
 // map); it does not touch the runs being partitioned. TRUSTED (ownership of the map's slices is not modelled).
+// Its precondition is the geometric content of Partition: the fragment (x, n) has at least one voxel and
+// lies inside block bcoord along x, where the block's first x (ghost gBeg == bcoord[0] * block width,
+// ghost gbs) is tracked by the caller - so EVERY call site, not only the two known today, must file a
+// fragment under the block that contains it; the row's y/z blocks are the floor blocks (ghosts gby, gbz).
 //@ func BlockRLEs.appendBlockRLE
 //@   trusted
+//@   ghost gBeg int32 = arbitrary()
+//@   ghost gbs int32 = arbitrary()
+//@   ghost gbx int32 = arbitrary()
+//@   ghost gby int32 = arbitrary()
+//@   ghost gbz int32 = arbitrary()
+//@   requires n >= 1 && bcoord[0] == gbx && bcoord[1] == gby && bcoord[2] == gbz && gBeg <= x && int64(x) + int64(n) <= int64(gBeg) + int64(gbs)
 //@   modifies brles[*]
 
 //@ func RLEs.Partition
-//@   prop C18
+//@   prop C18 C20
 //@   requires blockSize[0] > 0 && blockSize[0] <= 1048576 && blockSize[1] > 0 && blockSize[2] > 0
 //@   requires forall k int :: {rles[k]} 0 <= k && k < len(rles) ==> rlewf(rles[k]) && rles[k].start[0] >= -536870912 && rles[k].start[0] <= 536870912 && rles[k].length <= 536870912
 //@   safety_off
 //@   modifies *
+//@   ghost gBeg int32 = arbitrary()
+//@   ghost gbs int32 = arbitrary()
+//@   ghost gbx int32 = arbitrary()
+//@   ghost gby int32 = arbitrary()
+//@   ghost gbz int32 = arbitrary()
+//@   modifies ghost gBeg
+//@   modifies ghost gbs
+//@   modifies ghost gbx
+//@   modifies ghost gby
+//@   modifies ghost gbz
+//@   ghostset at "rx := rle.start[0]": gBeg = bBegX
+//@   ghostset at "rx := rle.start[0]": gbs = blockSize[0]
+//@   ghostset at "rx := rle.start[0]": gbx = bcoord[0]
+//@   ghostset at "rx := rle.start[0]": gby = fdiv(rle.start[1], blockSize[1])
+//@   ghostset at "rx := rle.start[0]": gbz = fdiv(rle.start[2], blockSize[2])
+//@   ghostset after "bBegX += blockSize[0]": gBeg = bBegX
+//@   ghostset after "bcoord[0]++": gbx = bcoord[0]
+//@   invariant loop 2: gBeg == bBegX && gbs == blockSize[0] && gbx == bcoord[0] && gby == bcoord[1] && gbz == bcoord[2]
 //@   assert at "bBegX := bcoord[0] * blockSize[0]": bcoord[0] == fdiv(rle.start[0], blockSize[0]) && bcoord[1] == fdiv(rle.start[1], blockSize[1]) && bcoord[2] == fdiv(rle.start[2], blockSize[2])
 //@   assume at "rx := rle.start[0]": (bcoord[0] == fdiv(rle.start[0], blockSize[0]) && bBegX == bcoord[0] * blockSize[0]) ==> (bBegX <= rle.start[0] && int64(rle.start[0]) < int64(bBegX) + int64(blockSize[0]))
 //@   invariant loop 1: forall k int :: {rles[k]} 0 <= k && k < len(rles) ==> rlewf(rles[k]) && rles[k].start[0] >= -536870912 && rles[k].start[0] <= 536870912 && rles[k].length <= 536870912
@@ -354,3 +382,10 @@ package dvid
 //@ func Span.Includes
 //@   prop C18
 //@   ensures result == (s[0] == block[2] && s[1] == block[1] && s[2] <= block[0] && block[0] <= s[3])
+
+// StringToUUID (C07, C20): only 32-character strings are accepted as UUIDs (prefix matching of UUIDs
+// relies on all registered UUIDs having the same length).
+//@ func StringToUUID
+//@   prop C07 C20
+//@   modifies *
+//@   ensures result1 == nil ==> len(s) == 32
